@@ -47,3 +47,13 @@ func VerifDigestHashLen(alg string) int {
 	}
 	return f().Size()
 }
+
+// VerifParseChallenge runs parseChallenge and returns the parsed fields in declaration order
+// (realm, domain, nonce, opaque, stale, algorithm, qop, userhash).
+func VerifParseChallenge(chal string) ([]string, error) {
+	c, err := parseChallenge(chal)
+	if err != nil {
+		return nil, err
+	}
+	return []string{c.realm, c.domain, c.nonce, c.opaque, c.stale, c.algorithm, c.qop, c.userhash}, nil
+}
